@@ -282,6 +282,8 @@ func concHarnesses() []concArg {
 			{{K: "LOOKUP", H: "root/d", N: ".."}}, {{K: "RMDIR", H: "root", N: "d"}}, {{K: "MKDIR", H: "root", N: "e"}}}},
 		{Name: "truncate-write-remove-big", DiskSize: 3000, Probe: bigProbe, Setup: []fsx.Op{{K: "CREATE", H: "root", N: "big"}, {K: "WRITE", H: "root/big", Off: 600 * 4096, Cnt: 1, Pat: 0x31, Stable: 2}}, Clients: [][]fsx.Op{
 			{{K: "SETATTR", H: "root/big", Size: 0}}, {{K: "WRITE", H: "root/big", Off: 0, Cnt: 100, Pat: 0x32, Stable: 2}}, {{K: "REMOVE", H: "root", N: "big"}}}},
+		{Name: "truncate-nonzero-remove-big", DiskSize: 3000, Probe: bigProbe, Setup: []fsx.Op{{K: "CREATE", H: "root", N: "big"}, {K: "WRITE", H: "root/big", Off: 0, Cnt: 5 * 4096, Pat: 0x30, Stable: 2}, {K: "WRITE", H: "root/big", Off: 600 * 4096, Cnt: 1, Pat: 0x31, Stable: 2}}, Clients: [][]fsx.Op{
+			{{K: "SETATTR", H: "root/big", Size: 3 * 4096}}, {{K: "REMOVE", H: "root", N: "big"}}, {{K: "GETATTR", H: "root/big"}}}},
 		{Name: "removebig-create-reuse", DiskSize: 3000, Probe: bigProbe, Setup: []fsx.Op{{K: "CREATE", H: "root", N: "big"}, {K: "WRITE", H: "root/big", Off: 600 * 4096, Cnt: 1, Pat: 0x31, Stable: 2}, {K: "RESTART"}}, Clients: [][]fsx.Op{
 			{{K: "REMOVE", H: "root", N: "big"}}, {{K: "CREATE", H: "root", N: "c"}}, {{K: "CREATE", H: "root", N: "e"}}}},
 		{Name: "stale-dir-handle-reuse", DiskSize: 3000, Setup: []fsx.Op{{K: "MKDIR", H: "root", N: "d"}, {K: "RMDIR", H: "root", N: "d"}, {K: "RESTART"}}, Clients: [][]fsx.Op{
